@@ -49,6 +49,8 @@ EXTRA = [   # nested / context-key-bound combinations that the Library kinds do 
     ({"processor": "VPairOperation", "derive": {"parameter_sweep": {"parameters": {"a": "len_ok"}, "variables": {"len_ok": {"values": [None, 2.0, "x"]}},
                                                                      "collection": "FloatDataCollection"}}},
      "float", "coll", {"len_ok_values"}),
+    ({"processor": "VPairSource", "derive": {"parameter_sweep": {"parameters": {"a": "min(t, 5)"}, "variables": {"t": {"values": [1.0, float("inf"), float("nan")]}},
+                                                                  "collection": "FloatDataCollection"}}}, "none", "coll", {"t_values"}),
     # a swept probe whose context key is the very key its sweep publishes
     ({"processor": "VPairProbe", "context_key": "t_values", "derive": {"parameter_sweep": {"parameters": {"a": "t"}, "variables": {"t": {"values": [1.0, 2.0]}}}}},
      "float", "float", {"t_values"}),
